@@ -70,6 +70,9 @@ def gen_invalid(rnd, rm):
         return dict(o, name=bn)
     if kind == "set_ref_badname":
         return dict(o, space=path, name=bn)
+    if kind == "new_cells_autoname_clash":
+        # a reference / child space named like the next automatic cells name, then a cells created without a name
+        return dict(o, space=path, prep=rnd.choice(["ref", "space"]), formula=rnd.choice([None, "lambda x: x"]))
     if kind == "new_cells_funcname_underscore":
         # no usable name given and a function whose own name is not allowed either: the cells gets an automatic name
         return dict(o, space=path, name=rnd.choice([None, "1st", "_p"]), func=rnd.choice(["_hid", "__dun__", "_"]))
@@ -269,7 +272,8 @@ KINDS = ["new_space_badname", "new_cells_badname", "rename_cells_badname", "rena
          "ref_clash_cells", "ref_clash_sub_member", "cells_clash_sub_member", "setattr_nonscalar_cells",
          "add_bases_self", "add_bases_cycle", "add_bases_bad_mro", "new_space_bad_mro", "new_space_cyclic_parent",
          "add_bases_child", "add_bases_parent", "add_bases_kind_conflict", "add_bases_kind_conflict_in_sub", "new_space_kind_conflict",
-         "new_space_refs_conflict", "new_cells_funcname_clash", "new_cells_funcname_underscore", "add_bases_relref_scope", "new_space_relref_scope", "remove_bases_not_base",
+         "new_space_refs_conflict", "new_cells_funcname_clash", "new_cells_funcname_underscore",
+         "new_cells_autoname_clash", "add_bases_relref_scope", "new_space_relref_scope", "remove_bases_not_base",
          "del_derived_cells", "del_derived_ref", "del_missing", "del_special", "del_model_ref_via_space",
          "formula_syntax", "formula_not_function", "formula_two_statements", "formula_async", "formula_int",
          "formula_two_lambdas", "formula_funcobj_global_default", "formula_funcobj_two_lambdas", "new_cells_syntax", "new_cells_not_function", "space_formula_syntax",
@@ -335,6 +339,17 @@ def apply_invalid(w, o):
             m.new_space(o["name"], bases=[g(b) for b in o["bases"]])
         elif k == "new_space_refs_conflict":
             m.new_space(o["name"], bases=[g(b) for b in o["bases"]], refs=dict(o["refs"]))
+        elif k == "new_cells_autoname_clash":
+            sp_ = g(o["space"])
+            n_ = next("Cells%d" % d_ for d_ in range(1, 100) if "Cells%d" % d_ not in sp_.cells)
+            if o["prep"] == "ref":
+                setattr(sp_, n_, 1)
+            else:
+                sp_.new_space(n_)
+            if o["formula"] is None:
+                sp_.new_cells()
+            else:
+                sp_.new_cells(formula=o["formula"])
         elif k == "new_cells_funcname_underscore":
             g(o["space"]).new_cells(o["name"], formula="def %s(x):\n    return x" % o["func"])
         elif k == "new_cells_funcname_clash":
